@@ -38,6 +38,9 @@ def body(chk):
     chk.assumptions += ["Layout.tla / OutMap.tla are frozen transcriptions (change detectors anchored on the CEOS record sizes); "
                         "Python's float()/int() text parsing is trusted for the digits themselves",
                         "a scaled field may equal the exactly scaled rational (4 ulp) or the double product/quotient with the factor"]
+    from harness import sessioncheck
+
+    sessioncheck.standard(chk)
     chk.finish(
         rule="a case = one product whose ~900 leader fields all hold tokens of rotating classes; 12 rotation plans make every "
              "field meet every class; x record variants; + seeded random class assignments; evaluations = leaves compared; "
